@@ -95,7 +95,7 @@ func Run(r *vh.Run) {
 	r.Rule = "one case = (network heights, main chain, one branch per node: fork height x length x timestamp spacing, topology, connection order and direction, optional checkpoint bootstrap). A fixed core covers every topology x {decisive, near-tie} x {before, across, after the v2 heights} x {fork point inside/outside the 10 most recent history entries, more than 100 blocks}; the rest is drawn from the seed. Non-trivial = at least two nodes start on different tips; distinct = different (tips' fork points/lengths, topology, order)."
 	rng := vh.NewRNG(r.Seed)
 	specs := coreSpecs()
-	n := r.Pick(26, 220)
+	n := r.Pick(50, 900)
 	for i := 0; i < n; i++ {
 		specs = append(specs, randomSpec(rng.Fork(), i))
 	}
